@@ -5,6 +5,13 @@ use crate::sym::*;
 use pc_keyboard::layouts::*;
 use pc_keyboard::*;
 
+fn is_ctrl_letter_code(d: DecodedKey) -> bool {
+    match d {
+        DecodedKey::Unicode(c) => (c as u32) >= 1 && (c as u32) <= 0x1A,
+        _ => false,
+    }
+}
+
 pub fn c09_check<L: KeyboardLayout>(name: &str, l: &L) {
     let k = any_key();
     let m = any_mods();
@@ -33,6 +40,15 @@ pub fn c09_check<L: KeyboardLayout>(name: &str, l: &L) {
             assert!(out_map == out_ign, "C09: Ctrl mapping changes a non-letter key");
         }
         Some(c) => {
+            // (v) "Ctrl not held / mapping disabled => Ctrl handling changes nothing", absolute form: the
+            // two-run comparisons above cannot see Ctrl handling that misfires identically in both runs
+            // (seed C09-r4m1: a carry out of Shift+CapsLock sets the layout's private Ctrl bit in both
+            // modes), so additionally a letter key never yields U+0001..U+001A unless mapping is enabled
+            // and a Ctrl key is held.
+            assert!(!is_ctrl_letter_code(out_ign), "C09: a letter key yields a control character although mapping is disabled");
+            if !r_ctrl(&m) {
+                assert!(!is_ctrl_letter_code(out_map), "C09: a letter key yields a control character although Ctrl is not held");
+            }
             if r_ctrl(&m) && !m.lalt && !m.ralt {
                 let want = char::from_u32(c as u32 - 0x60).map(DecodedKey::Unicode);
                 assert!(Some(out_map) == want, "C09: Ctrl+letter is not the control character of the letter the layout types");
